@@ -70,7 +70,10 @@ def drive_(a, rng, opts=None, samples=None):
     idem = 1 if ta.equals(tb) else 0
     ain = abstr.abstract_of(ts.dump_tables(), cmap, tmap)
     aout = abstr.abstract_of(sts.dump_tables(), cmap, tmap)
-    return dict(ts=ain, samples=list(samples), opts=o, out=aout, nm=[int(x) for x in nm], idem=idem,
+    rg, cleared = abstr.ragged_variant(ts.dump_tables(), rng)
+    rout = rg.tree_sequence().simplify(samples, **kw).dump_tables()
+    why = abstr.ragged_consistent(sts.dump_tables(), rout, cleared)
+    return dict(ts=ain, samples=list(samples), opts=o, out=aout, nm=[int(x) for x in nm], idem=idem, ragged_ok=0 if why else 1, ragged_why=why or "",
                 maps=[cmap.kind, tmap.kind, tmap.offset])
 
 
